@@ -59,6 +59,15 @@ FRAMES = [
     "d = {{\n    'k': {L},\n    'j': 1,\n}}\nprint(d)\n",
     "x = 1  # comment with a\ttab and trailing blanks   \ny = {L}   \n\n\n\n\n\nprint(x, y)\n",
     "def k():\n    '''Docstring\twith tab\n\n\n\n    and blank lines   \n    '''\n    return {L}\n\n\nprint(k())\n",
+    # imports inside a block, directly next to a statement that holds the literal (import spacing)
+    "import sys\n\n\ndef m():\n    import os\n    sys.stdout.write({L} + os.sep)\n    return 1\n\n\nm()\n",
+    "def n(a):\n    if a:\n        w = {L}\n        import os\n\n\n\n        import sys\n        print(w, os.sep, sys.argv)\n    return a\n\n\nn(1)\n",
+    "class D:\n    import os\n    attr = {L}\n    from sys import argv\n\n\nprint(D.attr, D.os.sep)\n",
+    "try:\n    import os\n    z = {L}\nexcept ImportError:\n    z = None\nprint(z)\n",
+    # ... where that statement is the last one of its block, so that moving it to another column leaves valid code
+    "import sys\n\n\ndef m():\n    import os\n    sys.stdout.write({L} + os.sep)\n\n\nm()\n",
+    "def n(a):\n    for i in a:\n        import os\n        print({L}, os.sep)\n    return a\n\n\nn([1])\n",
+    "import sys\nif sys.argv:\n    import os\n    print({L})\nprint(2)\n",
 ]
 
 
